@@ -45,19 +45,20 @@ def menus(tier):
                   "values": [None, 1.5, 0.2, 1.46]},
         # "len2" is a SECOND application of len (another form): re-declaring a length is rejected
         # whichever of the two forms comes first
-        "str": {"refs": {"len": str_len, "len2": [(0,), (2,), (0, E), (E, 0), (E, 3)],
-                         "alphabet": [("",), ("a",), ("ab",)],
+        "str": {"refs": {"len": str_len, "len2": [(0,), (2,), (0, E), (E, 0), (E, 3), (E, E)],
+                         "alphabet": [("",), ("a",), ("ab",), ("ab" * 100,)],
                          # "ba": every letter is in the alphabet "ab", the string is not a slice of it
                          "contains": [("",), ("a",), ("ab",), ("c",), ("ba",)],
                          "regex": [("a",), ("[ab]+",), ("^a.$",), ("a{2}",), ("*",),
                                    ("a{99999999999999999999}",)]},
-                "values": [None, "", "a", "ab", "abc", "{id}"]},
+                # the last two: a pinned value / alphabet long enough for any line-wrapping of literals
+                "values": [None, "", "a", "ab", "abc", "{id}", "ab" * 60]},
         # a user subclass of StrSchema whose len() refuses lengths above 2
         "capped_str": {"refs": {"len": [(1,), (3,), (1, E), (3, E), (E, 3), (1, 3)],
                                 "alphabet": [("ab",)], "contains": [("a",), ("",)],
                                 "regex": [("a",)]},
                        "values": [None, "a", "abc"]},
-        "list": {"refs": {"len": lst_len, "len2": [(0,), (2,), (0, E), (E, 0), (E, 3), (1, 2)]},
+        "list": {"refs": {"len": lst_len, "len2": [(0,), (2,), (0, E), (E, 0), (E, 3), (1, 2), (E, E)]},
                  "values": [None, e1.Sch(INT), [], [I1], [I1, SA], [I1, E], [E, I1], [E, I1, E], [E]]},
     }
 
